@@ -12,6 +12,7 @@ is more robust w.r.t. argument numbering than using repr.
 # Modified by Anders Logg, 2009-2010.
 # Modified by Johan Hake, 2010.
 
+import re
 from functools import cmp_to_key
 
 from ufl.argument import Argument
@@ -96,12 +97,32 @@ def _cmp_argument(a, b):
         return _cmp_terminal_by_repr(a, b)
 
 
+_digits = re.compile(r"(\d+)")
+
+
+def _natural_key(s):
+    """Split a repr into text and integer parts, so that embedded numbers compare by value."""
+    parts = _digits.split(s)
+    return [int(p) if i % 2 else p for i, p in enumerate(parts)]
+
+
 def _cmp_terminal_by_repr(a, b):
     """Cmp terminal by repr."""
     # The cost of repr on a terminal is fairly small, and bounded
     x = repr(a)
     y = repr(b)
-    return -1 if x < y else (0 if x == y else 1)
+    if x == y:
+        return 0
+    # The repr of a terminal may contain counts and ids (constants, meshes,
+    # free indices of a zero). Compare those by value, not digit by digit,
+    # such that the ordering only depends on their relative numbering
+    # (otherwise 9 < 10 but "10" < "9" and the ordering, and with it the
+    # signature, changes when a global counter passes a power of ten).
+    kx = _natural_key(x)
+    ky = _natural_key(y)
+    if kx != ky:
+        return -1 if kx < ky else 1
+    return -1 if x < y else 1
 
 
 # Hack up a MultiFunction-like type dispatch for terminal comparisons
